@@ -191,6 +191,6 @@ pub fn twin() {
     put_sym(&mut b, &mut n, 1);
     put(&mut b, &mut n, b"\r\n");
     let (keys, count, _left) = env::collect_get_keys(&b[..n]);
-    vcheck!(count == 0, "twin:reachable");
+    vcheck!(count > 1, "twin:reachable");
     std::mem::forget(keys);
 }
